@@ -10,7 +10,11 @@ About `Pygom/Sens.lean` (the line-by-line model of `ode_and_sensitivity`, `ode_a
   is the derivative of component `r` of the augmented right-hand side in `z_c`;
 * the by-state matrix AS CODED is not (`aug_jacobian_by_state_counterexample`); the repaired one is
   (`aug_jacobian_by_state_repaired_is_derivative`);
-* reshape round trips.
+* reshape round trips;
+* sessions (`session_is_pure`, `earlier_results_kept`, `revisit_reproduces`, `instances_do_not_interact`): along any
+  history of evaluations and re-definitions on live instances every call returns the single-call function of its own
+  `(z, t)` and the evaluators assigned last; a memo keyed on `(t, state)` is not such a function
+  (`memo_keyed_on_point_counterexample`).
 
 What is NOT proved (assumed, validated per run by harness/props/c13.py): that the solution of these variational
 equations is dx(t)/dtheta resp. dx(t)/dx0 - the classical smooth-dependence theorem for ODE flows, which Mathlib
@@ -558,6 +562,162 @@ theorem toList_ofList [Zero α] (l : List α) : toList l.length (ofList l) = l :
     simp [toList, ofList, Array.getD, h2]
 
 end roundtrip
+
+/-! ## sessions: several evaluations on live instances
+
+Everything above is about functions of `(z, f, J, G, DJ, GJ)`.  On a real instance `f, J, G, DJ, GJ` are the
+evaluators of the CURRENT definition at the CURRENT parameter values, applied to the state part of `z` and
+to `t` (`Inst`).  `model.parameters = ...`, `add_event`, `add_ode`, ... replace them (`SOp.assign`); an
+evaluation returns the pure function of its own arguments and the current evaluators.  The live instance
+may carry anything from the previous call (`Live.last`, written by every evaluation): it is never read.
+`harness/props/c13.py` replays such sessions on the real code (kept results, revisits after a parameter
+re-assignment / an added transition / another time, sibling instances, input containers - the
+representation of `z` does not exist in the model: a list, a tuple, an int array of the same numbers ARE
+the same `z`). -/
+section session
+variable {α : Type} [Zero α] [One α] [Add α] [Mul α]
+
+/-- what the sensitivity systems read from an instance -/
+structure Inst (α : Type) where
+  nS : ℕ
+  nP : ℕ
+  f  : Vec α → α → Vec α
+  J  : Vec α → α → Mat α
+  G  : Vec α → α → Mat α
+  DJ : Vec α → α → Mat α
+  GJ : Vec α → α → Mat α
+
+inductive Out (α : Type) where
+  | vec (v : Vec α)
+  | mat (M : Mat α)
+
+/-- one call on an instance; `len = len(state_param)` for the initial-value system -/
+inductive SOp (α : Type) where
+  | assign (d : Inst α)
+  | rhs (z : Vec α) (t : α) (byState : Bool)
+  | rhsIV (len : ℕ) (z : Vec α) (t : α)
+  | jac (z : Vec α) (t : α) (byState : Bool)
+  | jacIV (z : Vec α) (t : α)
+
+/-- the single-call functions -/
+def Inst.eval (d : Inst α) : SOp α → Option (Out α)
+  | .assign _ => none
+  | .rhs z t b => some (.vec (odeAndSensitivity d.nS d.nP (d.f z t) (d.J z t) (d.G z t) z b))
+  | .rhsIV len z t => some (.vec (odeAndSensitivityIV d.nS d.nP len (d.f z t) (d.J z t) (d.G z t) z))
+  | .jac z t b => some (.mat (odeAndSensitivityJacobian d.nS d.nP (d.J z t) (d.GJ z t) (d.DJ z t) z b))
+  | .jacIV z t => some (.mat (odeAndSensitivityIVJacobian d.nS d.nP (d.J z t) (d.GJ z t) (d.DJ z t) z))
+
+def SOp.next (d : Inst α) : SOp α → Inst α
+  | .assign d' => d'
+  | _ => d
+
+structure Live (α : Type) where
+  cur : Inst α
+  last : Option (Out α)
+
+def Live.step (s : Live α) (op : SOp α) : Live α × Option (Out α) :=
+  match op with
+  | .assign d => ({ s with cur := d }, none)
+  | op => ({ s with last := s.cur.eval op }, s.cur.eval op)
+
+def runOps (s : Live α) : List (SOp α) → Live α × List (Out α)
+  | [] => (s, [])
+  | op :: ops => ((runOps (s.step op).1 ops).1, (s.step op).2.toList ++ (runOps (s.step op).1 ops).2)
+
+/-- what the same calls return when each is the single-call function of the evaluators assigned last -/
+def pureOutputs (d : Inst α) : List (SOp α) → List (Out α)
+  | [] => []
+  | op :: ops => (d.eval op).toList ++ pureOutputs (op.next d) ops
+
+theorem step_spec (s : Live α) (op : SOp α) :
+    (s.step op).2 = s.cur.eval op ∧ (s.step op).1.cur = op.next s.cur := by
+  cases op <;> exact ⟨rfl, rfl⟩
+
+/-- **session_is_pure.**  For EVERY history of evaluations and re-definitions on one instance, whatever it
+carried at the start, the values returned are the single-call functions of each call's own `(z, t)` and
+the evaluators assigned last. -/
+theorem session_is_pure (s : Live α) (ops : List (SOp α)) :
+    (runOps s ops).2 = pureOutputs s.cur ops := by
+  induction ops generalizing s with
+  | nil => rfl
+  | cons op ops ih =>
+    obtain ⟨h1, h2⟩ := step_spec s op
+    simp only [runOps, pureOutputs]
+    rw [ih, h1, h2]
+
+/-- **earlier_results_kept.**  Continuing a session never changes what it has already returned. -/
+theorem earlier_results_kept (s : Live α) (ops more : List (SOp α)) :
+    (runOps s (ops ++ more)).2 = (runOps s ops).2 ++ (runOps (runOps s ops).1 more).2 := by
+  induction ops generalizing s with
+  | nil => rfl
+  | cons op ops ih => simp only [List.cons_append, runOps, ih, List.append_assoc]
+
+/-- **revisit_reproduces.**  Evaluate, re-define (other parameter values, an added transition), evaluate the
+same call, restore, evaluate again: the second result is the single-call function of the NEW evaluators,
+the third equals the first. -/
+theorem revisit_reproduces (s : Live α) (d' : Inst α) (e : SOp α) (he : ∀ d, e.next d = d) :
+    (runOps s [e, .assign d', e, .assign s.cur, e]).2
+      = (s.cur.eval e).toList ++ (d'.eval e).toList ++ (s.cur.eval e).toList := by
+  rw [session_is_pure]
+  simp [pureOutputs, SOp.next, he, Inst.eval]
+
+/-- two live instances, calls interleaved (`true` = the first) -/
+def runTwo (a b : Live α) : List (Bool × SOp α) → List (Bool × Out α)
+  | [] => []
+  | (true, op) :: ops => (a.step op).2.toList.map (Prod.mk true) ++ runTwo (a.step op).1 b ops
+  | (false, op) :: ops => (b.step op).2.toList.map (Prod.mk false) ++ runTwo a (b.step op).1 ops
+
+/-- **instances_do_not_interact.**  What the first instance returns in an interleaved session is what it
+returns when the other instance's calls are left out. -/
+theorem instances_do_not_interact (a b : Live α) (ops : List (Bool × SOp α)) :
+    ((runTwo a b ops).filter (fun p => p.1)).map (fun p => p.2)
+      = (runOps a ((ops.filter (fun p => p.1)).map (fun p => p.2))).2 := by
+  induction ops generalizing a b with
+  | nil => rfl
+  | cons hd ops ih =>
+    obtain ⟨w, op⟩ := hd
+    cases w with
+    | true =>
+      simp only [runTwo, List.filter_append, List.map_append, List.filter_cons_of_pos, List.map_cons, runOps, ih]
+      congr 1
+      cases (a.step op).2 <;> simp
+    | false =>
+      simp only [runTwo, List.filter_append, List.map_append, ih]
+      cases (b.step op).2 <;> simp
+
+end session
+
+/-! A memo of `J` keyed on `(t, state)` inside the sensitivity evaluator (the seeded changes C13-a2 / C13-b2
+have this shape) is NOT such a function.  One state, one parameter, integers: `f = θ·x`, `J = θ`, `G = x`. -/
+section memo
+
+structure MemoInst where
+  theta : Int
+  memo : Option ((Int × Int) × Int)
+
+/-- `sensitivity` with the remembered `J`: `(J·s + G)` at state `x`, sensitivity `s`, time `t` -/
+def MemoInst.sens (m : MemoInst) (x s t : Int) : MemoInst × Int :=
+  let j := match m.memo with
+    | some (k, v) => if k = (t, x) then v else m.theta
+    | none => m.theta
+  ({ m with memo := some ((t, x), j) }, j * s + x)
+
+/-- **memo_keyed_on_point_counterexample.**  `θ = 1`, evaluate at `x = 2, s = 3, t = 0`; re-assign `θ = 5`;
+evaluate at the same point: the variant answers `1·3 + 2 = 5` again, the model of the real code (the same
+session through `runOps`) answers `5·3 + 2 = 17`. -/
+theorem memo_keyed_on_point_counterexample :
+    let m0 : MemoInst := { theta := 1, memo := none }
+    let m1 := (m0.sens 2 3 0).1
+    (m0.sens 2 3 0).2 = 5 ∧ (({ m1 with theta := 5 } : MemoInst).sens 2 3 0).2 = 5 ∧
+    (let d : Int → Inst Int := fun th =>
+        { nS := 1, nP := 1, f := fun z _ _ => th * z 0, J := fun _ _ _ _ => th, G := fun z _ _ _ => z 0,
+          DJ := fun _ _ _ _ => 0, GJ := fun _ _ _ _ => 1 }
+     let z : Vec Int := fun i => if i = 0 then 2 else 3
+     (pureOutputs (d 1) [.rhs z 0 false, .assign (d 5), .rhs z 0 false]).map
+        (fun o => match o with | .vec v => v 1 | .mat _ => 0) = [5, 17]) := by
+  refine ⟨by decide, by decide, by decide⟩
+
+end memo
 
 /-! ## non-vacuity: the hypotheses of the derivative theorems are satisfiable by a non-linear system
 (`nS = nP = 1`, `f = x²·θ`-like: `f = x²`, `J = 2x`, `G = x`, `dJ = 2`, `dG = 1`) -/
